@@ -211,3 +211,95 @@ def call(exe: str, args: typing.List[str]) -> dict:
     rep = re.sub(r'0x[0-9a-f]+', '0x..', m.group(1)) if m else ''
     kv = dict(x.split('=', 1) for x in p.stdout.split() if '=' in x)
     return {'rc': p.returncode, 'out': p.stdout.strip(), 'report': rep, 'kv': kv, 'args': args}
+
+
+# ------------------------------------------------------------------------------------------------
+# C++ probes: pointer formed by any_bitspan::subspan(); VariantType() on storage that held garbage, alternative 0 non-trivial
+# ------------------------------------------------------------------------------------------------
+
+CPP_FILES = {
+    'c04q/Inner.1.0.dsdl': 'uint8[<=3] v\n@sealed\n',
+    'c04q/U0.1.0.dsdl': '@union\nc04q.Inner.1.0 v\nuint8 a\nuint16[<=4] w\n@sealed\n',
+    'c04q/U1.1.0.dsdl': '@union\nuint16[<=4] w\nuint8 a\n@sealed\n',
+    'c04q/U2.1.0.dsdl': '@union\nc04q.U0.1.0 u\nuint8 a\n@sealed\n',
+    'c04q/Out.1.0.dsdl': 'uint64 big\nc04q.Inner.1.0 inner\n@sealed\n',
+}
+
+CPP_DRIVER = r'''
+#include <cstdio>
+#include <cstdint>
+#include <cstdlib>
+#include <cstring>
+#include <new>
+#include <vector>
+#include <array>
+#include <limits>
+#include <type_traits>
+#include <memory>
+#define protected public
+#include "c04q/U0_1_0.hpp"
+#include "c04q/U1_1_0.hpp"
+#include "c04q/U2_1_0.hpp"
+#include "c04q/Out_1_0.hpp"
+template <typename T> static void churn(const char* name)
+{
+    alignas(T) unsigned char raw[sizeof(T)];
+    std::memset(raw, 0xA5, sizeof(T));           // the storage held garbage before the object is constructed in it
+    T* p = new (raw) T();
+    std::printf("%s_index=%zu ", name, p->union_value.index());
+    p->~T();
+    T* q = new T();
+    T r(*q);                                      // copy, then assign over a live object
+    *q = r;
+    delete q;
+}
+int main(int argc, char** argv)
+{
+    if (argc < 2) { return 2; }
+    if (std::strcmp(argv[1], "ctor") == 0)
+    {
+        churn<c04q::U0_1_0>("U0"); churn<c04q::U1_1_0>("U1"); churn<c04q::U2_1_0>("U2");
+        std::printf("rc=0\n");
+        return 0;
+    }
+    const size_t n = (size_t) std::atoi(argv[2]);
+    const size_t skip_bits = (size_t) std::atoi(argv[3]);
+    uint8_t* b = new uint8_t[n ? n : 1];
+    std::memset(b, 1, n ? n : 1);
+    nunavut::support::const_bitspan s(b, n);
+    s.add_offset(skip_bits);
+    auto sub = s.subspan();
+    std::printf("rc=0 cap=%zu ptr_off=%ld sub_bits=%zu ", n, (long) ((uintptr_t) sub.unchecked_aligned_ptr() - (uintptr_t) b), (size_t) sub.size());
+    c04q::Out_1_0 o{};
+    nunavut::support::const_bitspan s2(b, n);
+    auto r = deserialize(o, s2);
+    std::printf("des_ok=%d\n", (int) bool(r));
+    delete[] b;
+    return 0;
+}
+'''
+
+
+def build_cpp(repo: str, workdir: str) -> typing.Tuple[str, str]:
+    os.makedirs(workdir, exist_ok=True)
+    ns = os.path.join(workdir, 'dsdl', 'c04q')
+    os.makedirs(ns, exist_ok=True)
+    for rel, text in CPP_FILES.items():
+        with open(os.path.join(workdir, 'dsdl', rel), 'w', encoding='utf-8') as f:
+            f.write(text)
+    env = dict(os.environ)
+    env['PYTHONPATH'] = os.path.join(repo, 'src')
+    env['PYTHONDONTWRITEBYTECODE'] = '1'
+    env.setdefault('PYTHONHASHSEED', '0')
+    out = os.path.join(workdir, 'gen')
+    p = _run([PY, '-m', 'nunavut', '--target-language', 'cpp', '--experimental-languages', '--language-standard', 'c++14', '--outdir', out, ns], env=env)
+    if p.returncode != 0:
+        return '', 'nnvg failed: ' + (p.stdout + p.stderr)[-2000:]
+    src = os.path.join(workdir, 'probe.cpp')
+    with open(src, 'w', encoding='utf-8') as f:
+        f.write(CPP_DRIVER)
+    exe = os.path.join(workdir, 'probe_cpp')
+    q = _run(['clang++', '-std=c++14', '-O0', '-g', '-fsanitize=address,undefined', '-fno-sanitize-recover=all', '-I', out, src, '-o', exe], timeout=600)
+    if q.returncode != 0:
+        return '', 'compile failed: ' + (q.stdout + q.stderr)[-2500:]
+    return exe, p.stdout + q.stdout
